@@ -210,7 +210,7 @@ def pixel_cases(d, res, ctx, n):
         fmt = rng.choice(['GRAY', 'BGR', 'RGB'])
         w, h = (rng.randint(1, 12), rng.randint(1, 12)) if rng.random() < 0.7 else (rng.randint(1, 90), rng.randint(1, 90))
         rw = rng.random() < 0.5
-        kind = rng.choice(['flipx', 'flipy', 'flipboth', 'rot', 'swaprgb', 'fmt', 'box', 'chain', 'chain'])
+        kind = rng.choice(['flipx', 'flipy', 'flipboth', 'rot', 'swaprgb', 'fmt', 'box', 'chain', 'chain', 'chain_box', 'chain_fmt'])
         spec = {'kind': 'pixel', 'sub': kind, 'fmt': fmt, 'w': w, 'h': h, 'rw': rw, 'k': k, 'seed': ctx.seed, 'shard': ctx.shard}
         res.evaluations += 1
         res.count('pixel_cases')
@@ -286,6 +286,28 @@ def pixel_case(d, rng, kind, fmt, w, h, rw, k, res, spec):
                 return f'pixels:{t}', 'not the exact channel swap'
         elif kind == 'box':
             return box_case(d, rng, f, orig, fmt, w, h, res)
+        elif kind in ('chain_box', 'chain_fmt'):
+            # a permutation prefix followed by a transform that hands the intermediate image to OpenCV (drawing / colour conversion)
+            pre, ref, rfmt = [], orig, fmt
+            for _ in range(rng.randint(1, 2)):
+                a = rng.choice(['flipx', 'flipy', 'flipboth', 'rotcw', 'rotccw', 'swaprgb'])
+                pre.append(a)
+                ref, rfmt = ref_apply(ref, rfmt, a)
+            ref = np.ascontiguousarray(ref)
+            rh_, rw_ = ref.shape[:2]
+            if kind == 'chain_box':
+                return box_case(d, rng, f, ref, fmt, rw_, rh_, res, prefix=pre)     # like a lone box, it may draw in place on a writable input
+            else:
+                t = rng.choice(['fmtrgb', 'fmtbgr', 'fmtgray'])
+                o1 = d.run(f, pre + [t])
+                res.nontrivial(f'pix|chain_fmt|{t}|{fmt}')
+                tf = t[3:].upper()
+                if (o1.width, o1.height) != (rw_, rh_) or o1.image.shape[:2] != (rh_, rw_) or o1.format != tf:
+                    return f'size:{t}', f'{pre + [t]} gave {o1.width}x{o1.height} {o1.format}'
+                if {fmt, tf} == {'RGB', 'BGR'} and not np.array_equal(o1.image, ref[..., ::-1]):
+                    return f'pixels:{t}', f'{pre + [t]}: not the exact channel swap of the permuted image'
+                if fmt == tf and not np.array_equal(o1.image, ref):
+                    return f'pixels:{t}', f'{pre + [t]}: pixels changed by a no-op format conversion'
         else:  # chain of up to 3 transforms, tracked with the reference
             acts = [rng.choice(['flipx', 'flipy', 'flipboth', 'rotcw', 'rotccw', 'swaprgb', 'size', 'size']) for _ in range(rng.randint(2, 3))]
             xs, ref, rfmt, sized = [], orig, fmt, False
@@ -322,13 +344,13 @@ def pixel_case(d, rng, kind, fmt, w, h, rw, k, res, spec):
     return None
 
 
-def box_case(d, rng, f, orig, fmt, w, h, res):
+def box_case(d, rng, f, orig, fmt, w, h, res, prefix=()):
     x0, y0 = round(rng.random() * 0.9, 3), round(rng.random() * 0.9, 3)
     bw, bh = round(rng.random() * (1 - x0), 3), round(rng.random() * (1 - y0), 3)
     col = rng.choice([None, 'f00', '0f0', '00f', '123456', 'fedcba', 'fff', '000'])
     xs = f'box {x0}+{y0}x{bw}x{bh}' + (f'#{col}' if col else '')
-    o = d.run(f, [xs])
-    res.nontrivial(f'pix|box|{fmt}|{"col" if col else "nocol"}|{sclass(w, h)}')
+    o = d.run(f, list(prefix) + [xs])
+    res.nontrivial(f'pix|box|{fmt}|{"col" if col else "nocol"}|{sclass(w, h)}|{len(prefix)}')
     if col is None:
         rgb = (0, 0, 0)
     elif len(col) == 3:
